@@ -39,7 +39,13 @@ fn main() {
             let count: usize = arg(&args, "--count", "50").parse().unwrap();
             let maxi: usize = arg(&args, "--max-instances", "6").parse().unwrap();
             let mode = arg(&args, "--mode", "mixed");
-            bincase::run_random(seed, count, maxi, &mode, &mut out);
+            if mode == "defaults" {
+                bincase::run_defaults(&mut out, 20);
+            } else if mode == "descriptors" {
+                bincase::run_descriptors(seed, 6, &mut out);
+            } else {
+                bincase::run_random(seed, count, maxi, &mode, &mut out);
+            }
         }
         "export-db" => {
             db::export(rbx_reflection_database::get(), &mut out);
